@@ -85,3 +85,50 @@ bool drv_ctl_bool(CTL *c) { return (bool)*c; }
 using CBA = _details::GenCallback<int, int>;
 void drv_cba_charge(CBA *cb, int *x) { cb->charge(*x); }
 }
+
+// =====================================================================================================================================
+// appended after the audit of group E (items D4, W1, W6).
+//  D4: SEVERAL throwing sources, every one with a payload of its own; the consumer GOES ON after an exception, every reported exception is
+//      recorded (payload, position), so that "a source's exception ... is reported to the consumer" can be checked per source.
+//  W1: after the aggregate's exception the consumer asks again: the sequence is over, the end indication must follow (C13 clause).
+//  W6: a source that the consumer had already stepped before handing it to the aggregator (`pre`).
+extern "C" {
+int g_xexc_val[4], g_xexc_at[4];      // every int exception reported to the consumer, in order: payload, position (count: g_exc_n)
+int g_fin_done, g_fin_bool;           // aggregate.done() / operator bool sampled after the last thing the consumer got (-1: never sampled)
+int g_pre_val, g_pre_ok;              // value taken from source 0 before it was handed to the aggregator
+int g_again;                          // what asking once more after the end indication gave (xstep code; 9: not asked)
+}
+// 1: a value was observed, 0: end of sequence, -1: a source's exception reached the consumer (recorded), -2: no_more_values_exception
+static int xstep(generator<int> &g, int style) {
+    int r = -3;
+    try {
+        if (style == 0) { if (!g.next()) r = 0; else { obs(g.value()); r = 1; } }
+        else { future<int> f = g(); if (!f.has_value()) r = 0; else { obs(*f); r = 1; } }
+    }
+    catch (int e) { if (g_exc_n < 4) { g_xexc_val[g_exc_n] = e; g_xexc_at[g_exc_n] = g_nobs; } g_exc_n++; g_exc_at = g_nobs; g_exc_val = e; r = -1; }
+    catch (const no_more_values_exception &) { g_nmv++; r = -2; }
+    catch (...) { g_other_exc++; r = -3; }
+    return r; }
+extern "C" {
+// n <= 3 sources, source i of kind_i (0: k_i values then end, 1: k_i values then throws e_i); style 0 next()/value(), 1 call-to-future;
+// pre = 1: the consumer takes the first value of source 0 itself before building the aggregate; the consumer goes on after every
+// exception and stops at the end indication / at no_more_values_exception / after `steps` steps; then it samples done() and, after an end indication, asks once more
+int drive_aggr_t(int n, int style, int pre, int steps, int kind0, int k0, int a0, int b0, int e0, int kind1, int k1, int a1, int b1, int e1, int kind2, int k2, int a2, int b2, int e2) {
+    int kind[3] = {kind0, kind1, kind2}, k[3] = {k0, k1, k2}, a[3] = {a0, a1, a2}, b[3] = {b0, b1, b2}, e[3] = {e0, e1, e2};
+    g_fin_done = g_fin_bool = -1; g_again = 9; g_pre_ok = 0;
+    {
+        std::vector<generator<int> > v;
+        for (int i = 0; i < n; i++) {
+            v.emplace_back(make_src(kind[i], k[i], a[i], b[i], e[i]));
+            if (i == 0 && pre) { generator<int> &s = *v.begin(); if (s.next()) { g_pre_val = s.value(); g_pre_ok = 1; } }
+        }
+        g_frame_kind = FK_AGGR;
+        auto g = generator_aggregator<int, void>(std::move(v));
+        int r = 1;
+        for (int i = 0; i < steps && (r == 1 || r == -1); i++) r = xstep(g, style);
+        if (r == 0) g_end++;
+        g_fin_done = g.done() ? 1 : 0; g_fin_bool = g ? 1 : 0;
+        if (r == 0) g_again = xstep(g, style);                            // asking once more after the end indication
+    }
+    return 1; }
+}
